@@ -16,7 +16,7 @@ tables below enumerate every constructor shape x every weak ordering.
 """
 import itertools
 
-from .interp import (Adt, BoxV, Cell, Inconclusive, Interp, ListV, Panic, Policy, Ptr, Tok, is_some, ordering,
+from .interp import (Adt, BoxV, Cell, Inconclusive, Interp, ListV, NONE, Panic, Policy, Ptr, Tok, is_some, ordering,
                      ordering_to_int, show, some)
 from .report import coverage, path_sig
 
@@ -364,6 +364,10 @@ def eval_row(prog, env, op, a, b, w, variant, prefix=()):
         elif op == "difference":
             exp = ref_difference(a, b)
             out["expected"] = "pieces %r" % (exp,)
+            v0 = it.strip(val)
+            if isinstance(v0, ListV):
+                # `Vec<BoundSet>` instead of `Option<Vec<BoundSet>>`: nothing left is the empty list
+                val = some(v0) if v0.items else NONE
             if not is_some(val):
                 out["actual"] = "None"
                 if exp:
